@@ -6,7 +6,7 @@ cd /verif
 git -C /repo status --short | grep -v '^??' && { echo "/repo not clean"; exit 9; }
 git -C /repo apply $S/patch.diff || exit 9
 for P in $PROPS; do
-  ./check $P --tier ${TIER:-quick} > /tmp/seedrun-$(basename $S)-$P.log 2>&1; rc=$?
+  ./check $P --tier ${TIER:-quick} ${ONLY:+--only $ONLY} > /tmp/seedrun-$(basename $S)-$P.log 2>&1; rc=$?
   echo "seed=$(basename $S) check=$P rc=$rc $(grep -c '^VIOLATION' /tmp/seedrun-$(basename $S)-$P.log) violation line(s)"
   grep -A1 '^VIOLATION\|^UNCONFIRMED\|^CHECK-BROKEN' /tmp/seedrun-$(basename $S)-$P.log | head -8
 done
